@@ -70,3 +70,7 @@ pub use terminal::{
 
 /// System specific terminal
 pub type SystemTerminal = unix::UnixTerminal;
+
+/// Verification hooks of the system specific terminal
+#[cfg(feature = "verif-hooks")]
+pub use unix::verif_hooks as unix_verif_hooks;
